@@ -643,6 +643,24 @@ theorem C19_aisle_answer_after_any_history (v : FAisleConf) (h₁ h₂ : List St
     ((v.run h₁).1.call q).2 = ((v.run h₂).1.call q).2 := by
   rw [(C19_aisle_history_independent v h₁).1, (C19_aisle_history_independent v h₂).1]
 
+/-! ### amounts: numbers, fractions, ranges -/
+
+/-- What the view shows for an amount, over exact rationals: a regular number as it is, a fraction
+    `whole num/den` (with the rounding error `err` the core keeps) as `whole + err + num/den` — the
+    value of `Number::value`, recomputed from the parts in this order —, a range end by end, a text as
+    it is; an ingredient's or timer's unit is copied, a cookware amount has no unit.  (The f64 instance
+    of the same definition is what the driver runs against the code, bit for bit.) -/
+theorem C19_value_conversion (w n d : Nat) (err x : Rat) (t u : Str) :
+    extractValue (α := Rat) (.number (.regular x)) = .number x ∧
+    extractValue (α := Rat) (.number (.fraction w n d err)) = .number ((w : Rat) + err + (n : Rat) / (d : Rat)) ∧
+    extractValue (α := Rat) (.range (.regular x) (.fraction w n d err)) =
+      .range x ((w : Rat) + err + (n : Rat) / (d : Rat)) ∧
+    extractValue (α := Rat) (.text t) = .text t ∧
+    extractAmountQ (α := Rat) ⟨.number (.fraction w n d err), some u⟩ =
+      ⟨.number ((w : Rat) + err + (n : Rat) / (d : Rat)), some u⟩ ∧
+    extractAmountV (α := Rat) (.number (.regular x)) = ⟨.number x, none⟩ := by
+  simp [extractValue, extractAmountQ, extractAmountV, Number.value]
+
 /-! ### non-vacuity of the coverage theorems -/
 
 namespace Ffi
@@ -672,6 +690,9 @@ example : ((intoSimpleRecipe exRecipe).sections.map fun s => (s.ingredientRefs, 
 example : derefIngredient (intoSimpleRecipe exRecipe) 1 = .ok ⟨"salt".toList, some ⟨.range 1 2, none⟩, none⟩ := by
   decide +kernel
 example : derefTimer (intoSimpleRecipe exRecipe) 1 = .error (.unwrapNone "deref_timer") := by decide +kernel
+/-- `1 1/2 cup` is shown as 3/2 -/
+example : extractAmountQ (α := Rat) ⟨.number (.fraction 1 1 2 0), some "cup".toList⟩ = ⟨.number (3/2), some "cup".toList⟩ := by
+  decide +kernel
 end Ffi
 
 end Cook
